@@ -254,14 +254,37 @@ Qed.
 
 (* ================================================================ queries *)
 
-Definition wfr (c : hcfg) (r : hrec) : Prop := length (r_tracked r) = length (c_tracked c).
+(* what TransitionEnd writes: one MTimeTracked and one MTimeTrackedDiff entry
+   per tracked state *)
+Definition wfr (c : hcfg) (r : hrec) : Prop :=
+  length (r_tracked r) = length (c_tracked c) /\
+  length (r_tracked_diff r) = length (c_tracked c).
 Definition db_wf (c : hcfg) (db : list hrec) : Prop := Forall (wfr c) db.
+
+Lemma zip_sub_length : forall a b, length a = length b -> length (zip_sub a b) = length a.
+Proof.
+  induction a as [|x a IH]; intros [|y b] H; try discriminate; [reflexivity|].
+  cbn [zip_sub length]. f_equal. apply IH. cbn in H. lia.
+Qed.
+
+Lemma diff_since_length : forall a b, length (diff_since a b) = length a.
+Proof.
+  intros. unfold diff_since. destruct (Nat.eqb_spec (length a) (length b)).
+  - apply zip_sub_length. assumption.
+  - apply repeat_length.
+Qed.
+
+Lemma mk_record_wf : forall c p tx, wfr c (mk_record c p tx).
+Proof.
+  intros. unfold wfr. cbn [mk_record r_tracked r_tracked_diff].
+  rewrite diff_since_length. unfold time_filter. rewrite map_length. split; reflexivity.
+Qed.
 
 Lemma run_log_wf : forall c txs, 1 <= c_max c -> db_wf c (run_log c txs).
 Proof.
   intros c txs H. apply Forall_forall. intros r Hr.
-  destruct (record_times_lemma c txs r H Hr) as (tx & _ & _ & Ht & _).
-  unfold wfr. rewrite Ht. unfold time_filter. apply map_length.
+  rewrite run_log_is_reference in Hr by exact H. apply In_lastn in Hr. apply recs_in in Hr.
+  destruct Hr as (p & tx & _ & ->). apply mk_record_wf.
 Qed.
 
 Lemma pos_in_from_spec : forall l k x,
@@ -291,26 +314,32 @@ Proof.
   rewrite Nat2Z.id. reflexivity.
 Qed.
 
-Lemma at_tracked_some : forall c r i,
-  wfr c r -> i < length (c_tracked c) -> exists t, at_tracked r (Z.of_nat i) = Some t.
+Lemma at_tracked_diff_nat : forall r i,
+  at_tracked_diff r (Z.of_nat i) = nth_error (r_tracked_diff r) i.
 Proof.
-  intros c r i Hw Hi. rewrite at_tracked_nat.
-  destruct (nth_error (r_tracked r) i) eqn:E; [eexists; reflexivity|].
-  apply nth_error_None in E. unfold wfr in Hw. lia.
+  intros. unfold at_tracked_diff. destruct (Z.ltb_spec (Z.of_nat i) 0); [lia|].
+  rewrite Nat2Z.id. reflexivity.
 Qed.
 
-(* r.Time.MTimeTracked[m.Index1(s)] for a tracked state *)
+(* r.Time.MTimeTracked[m.Index1(s)] / r.Time.MTimeTrackedDiff[m.Index1(s)] for
+   a tracked state: no index error on a well-formed record *)
 Lemma at_tracked_tick : forall c r s,
   wfr c r -> is_tracked c s = true ->
   at_tracked r (tracked_index c s) = Some (tracked_tick c r s).
 Proof.
-  intros c r s Hw Hs. destruct (tracked_index_spec _ _ Hs) as (i & Hp & Hi & Hlt).
+  intros c r s [Hw _] Hs. destruct (tracked_index_spec _ _ Hs) as (i & Hp & Hi & Hlt).
   rewrite Hi, at_tracked_nat. unfold tracked_tick. rewrite Hp.
-  apply nth_error_nth'. unfold wfr in Hw. lia.
+  apply nth_error_nth'. lia.
 Qed.
 
-Definition owf (c : hcfg) (o : option hrec) : Prop :=
-  match o with Some x => wfr c x | None => True end.
+Lemma at_tracked_delta : forall c r s,
+  wfr c r -> is_tracked c s = true ->
+  at_tracked_diff r (tracked_index c s) = Some (tracked_delta c r s).
+Proof.
+  intros c r s [_ Hw] Hs. destruct (tracked_index_spec _ _ Hs) as (i & Hp & Hi & Hlt).
+  rewrite Hi, at_tracked_diff_nat. unfold tracked_delta. rewrite Hp.
+  apply nth_error_nth'. lia.
+Qed.
 
 Definition pass_if (b : bool) : cl_res := if b then CPass else CReject.
 
@@ -336,40 +365,37 @@ Proof.
   destruct (N.odd (tracked_tick c r s)); cbn [negb andb]; [reflexivity|apply IH; assumption].
 Qed.
 
-Lemma clause_activated_spec : forall c r o l,
-  wfr c r -> owf c o -> forallb (is_tracked c) l = true ->
-  clause_activated c r o l = pass_if (forallb (rel_activated c r o) l).
+Lemma clause_activated_spec : forall c r l,
+  wfr c r -> forallb (is_tracked c) l = true ->
+  clause_activated c r l = pass_if (forallb (st_activated c r) l).
 Proof.
-  induction l as [|s l IH]; intros Hw Ho H; [reflexivity|].
+  induction l as [|s l IH]; intros Hw H; [reflexivity|].
   cbn [forallb] in H. apply andb_true_iff in H. destruct H as [Hs Hl].
   cbn [clause_activated forallb]. rewrite at_tracked_tick by assumption.
-  unfold rel_activated at 1, active_tick.
+  unfold st_activated at 1, active_tick.
   destruct (N.odd (tracked_tick c r s)); cbn [negb andb]; [|reflexivity].
-  destruct o as [x|]; [|apply IH; assumption].
-  cbn [owf] in Ho. rewrite at_tracked_tick by assumption.
-  destruct (N.odd (tracked_tick c x s)); cbn [negb andb]; [reflexivity|apply IH; assumption].
+  rewrite at_tracked_delta by assumption. rewrite <- N.negb_odd.
+  destruct (N.odd (tracked_delta c r s)); cbn [negb]; [apply IH; assumption|reflexivity].
 Qed.
 
-Lemma clause_deactivated_spec : forall c r o l,
-  wfr c r -> owf c o -> forallb (is_tracked c) l = true ->
-  clause_deactivated c r o l = pass_if (forallb (rel_deactivated c r o) l).
+Lemma clause_deactivated_spec : forall c r l,
+  wfr c r -> forallb (is_tracked c) l = true ->
+  clause_deactivated c r l = pass_if (forallb (st_deactivated c r) l).
 Proof.
-  induction l as [|s l IH]; intros Hw Ho H; [reflexivity|].
+  induction l as [|s l IH]; intros Hw H; [reflexivity|].
   cbn [forallb] in H. apply andb_true_iff in H. destruct H as [Hs Hl].
   cbn [clause_deactivated forallb]. rewrite at_tracked_tick by assumption.
-  unfold rel_deactivated at 1, active_tick.
+  unfold st_deactivated at 1, active_tick.
   destruct (N.odd (tracked_tick c r s)); cbn [negb andb]; [reflexivity|].
-  destruct o as [x|]; [|apply IH; assumption].
-  cbn [owf] in Ho. rewrite at_tracked_tick by assumption.
-  destruct (N.odd (tracked_tick c x s)); cbn [negb andb]; [apply IH; assumption|reflexivity].
+  rewrite at_tracked_delta by assumption. rewrite <- N.negb_odd.
+  destruct (N.odd (tracked_delta c r s)); cbn [negb]; [apply IH; assumption|reflexivity].
 Qed.
 
 Definition keep (c : hcfg) (q : query) (r : hrec) : bool :=
   negb (mtime_skip c q r) && negb (scalar_skip q r).
 
 (* what one round of the records loop decides *)
-Definition sel (c : hcfg) (q : query) (r : hrec) (o : option hrec) : bool :=
-  state_sat c q r o && keep c q r.
+Definition sel (c : hcfg) (q : query) (r : hrec) : bool := state_sat c q r && keep c q r.
 
 Lemma validate_parts : forall c q,
   validate c q = true ->
@@ -389,40 +415,33 @@ Proof.
   repeat split; assumption.
 Qed.
 
-Lemma rec_step_spec : forall c q r o,
-  wfr c r -> owf c o -> validate c q = true ->
-  rec_step c q r o = if sel c q r o then STake else SSkip.
+Lemma rec_step_spec : forall c q r,
+  wfr c r -> validate c q = true ->
+  rec_step c q r = if sel c q r then STake else SSkip.
 Proof.
-  intros c q r o Hw Ho Hv. destruct (validate_parts _ _ Hv) as (H1 & H2 & H3 & H4 & _).
+  intros c q r Hw Hv. destruct (validate_parts _ _ Hv) as (H1 & H2 & H3 & H4 & _).
   unfold rec_step, sel, state_sat, keep.
   rewrite clause_active_spec, clause_activated_spec, clause_inactive_spec,
           clause_deactivated_spec by assumption.
   destruct (forallb (st_active c r) (q_active q)); cbn [pass_if andb]; [|reflexivity].
-  destruct (forallb (rel_activated c r o) (q_activated q)); cbn [pass_if andb]; [|reflexivity].
+  destruct (forallb (st_activated c r) (q_activated q)); cbn [pass_if andb]; [|reflexivity].
   destruct (forallb (st_inactive c r) (q_inactive q)); cbn [pass_if andb]; [|reflexivity].
-  destruct (forallb (rel_deactivated c r o) (q_deactivated q)); cbn [pass_if andb]; [|reflexivity].
+  destruct (forallb (st_deactivated c r) (q_deactivated q)); cbn [pass_if andb]; [|reflexivity].
   destruct (mtime_skip c q r); [reflexivity|]. destruct (scalar_skip q r); reflexivity.
 Qed.
 
-Definition tpos (t : nat * hrec * option hrec) : nat := fst (fst t).
-Definition trec (t : nat * hrec * option hrec) : hrec := snd (fst t).
-Definition told (t : nat * hrec * option hrec) : option hrec := snd t.
-Definition trip_wf (c : hcfg) (t : nat * hrec * option hrec) : Prop :=
-  wfr c (trec t) /\ owf c (told t).
-
-Lemma with_older_wf : forall c db prev k,
-  db_wf c db -> owf c prev -> Forall (trip_wf c) (with_older prev k db).
+Lemma with_pos_wf : forall c db k,
+  db_wf c db -> Forall (fun t => wfr c (snd t)) (with_pos k db).
 Proof.
-  induction db as [|r db IH]; intros prev k Hd Hp; [constructor|].
-  inversion Hd; subst. cbn [with_older]. constructor.
-  - split; assumption.
-  - apply IH; [assumption|exact H1].
+  induction db as [|r db IH]; intros k Hd; [constructor|].
+  inversion Hd; subst. cbn [with_pos]. constructor; [assumption|apply IH; assumption].
 Qed.
 
-Lemma newest_first_wf : forall c db, db_wf c db -> Forall (trip_wf c) (newest_first db).
+Lemma newest_first_wf : forall c db,
+  db_wf c db -> Forall (fun t => wfr c (snd t)) (newest_first db).
 Proof.
-  intros. unfold newest_first. apply Forall_forall. intros t Ht. apply in_rev in Ht.
-  eapply Forall_forall in Ht; [exact Ht|]. apply with_older_wf; [assumption|exact I].
+  intros c db H. unfold newest_first. apply Forall_forall. intros t Ht. apply in_rev in Ht.
+  pose proof (with_pos_wf c db 0 H) as F. rewrite Forall_forall in F. apply (F t Ht).
 Qed.
 
 Lemma take_limit_done : forall (limit : Z) (ret : list nat) x rest,
@@ -448,18 +467,18 @@ Proof.
 Qed.
 
 Lemma fl_loop_closed : forall c q limit l ret,
-  validate c q = true -> Forall (trip_wf c) l ->
+  validate c q = true -> Forall (fun t => wfr c (snd t)) l ->
   limit_hit limit (length ret) = false ->
   fl_loop c q limit l ret =
-  FlOk (take_limit limit (ret ++ map tpos (filter (fun t => sel c q (trec t) (told t)) l))).
+  FlOk (take_limit limit (ret ++ map fst (filter (fun t => sel c q (snd t)) l))).
 Proof.
   intros c q limit l. induction l as [|t l IH]; intros ret Hv Hw Hl.
   - cbn. rewrite app_nil_r, take_limit_all by assumption. reflexivity.
-  - inversion Hw as [|? ? [Hr Hol] Hw']; subst. destruct t as [[pos r] older].
-    cbn [fl_loop filter trec told tpos fst snd] in *.
+  - inversion Hw as [|? ? Hr Hw']; subst. destruct t as [pos r].
+    cbn [fl_loop filter fst snd] in *.
     rewrite rec_step_spec by assumption.
-    destruct (sel c q r older) eqn:Ek.
-    + cbn [map tpos fst]. destruct (limit_hit limit (length (ret ++ [pos]))) eqn:Eh.
+    destruct (sel c q r) eqn:Ek.
+    + cbn [map fst]. destruct (limit_hit limit (length (ret ++ [pos]))) eqn:Eh.
       * rewrite take_limit_done by assumption. reflexivity.
       * rewrite IH by assumption. rewrite <- app_assoc. reflexivity.
     + apply IH; assumption.
@@ -471,10 +490,10 @@ Proof.
   cbn [andb]. apply Z.leb_gt. lia.
 Qed.
 
-Lemma find_latest_closed_trip : forall c db limit q,
+Lemma find_latest_closed_pairs : forall c db limit q,
   db_wf c db -> validate c q = true ->
   find_latest c db limit q =
-  FlOk (take_limit limit (map tpos (filter (fun t => sel c q (trec t) (told t)) (newest_first db)))).
+  FlOk (take_limit limit (map fst (filter (fun t => sel c q (snd t)) (newest_first db)))).
 Proof.
   intros c db limit q Hd Hv. unfold find_latest. rewrite Hv. cbn [negb].
   rewrite fl_loop_closed; try assumption; [reflexivity|apply newest_first_wf; assumption|apply limit_hit_0].
@@ -488,53 +507,43 @@ Proof.
   destruct (f a); cbn [rev]; [reflexivity|apply app_nil_r].
 Qed.
 
-Definition older_from (prev : option hrec) (db : list hrec) (m : nat) : option hrec :=
-  match m with 0 => prev | S j => nth_error db j end.
-
-Lemma with_older_positions : forall (P : hrec -> option hrec -> bool) db prev k,
-  map tpos (filter (fun t => P (trec t) (told t)) (with_older prev k db)) =
-  filter (fun i => match nth_error db (i - k) with
-                   | Some r => P r (older_from prev db (i - k)) | None => false end)
+Lemma with_pos_positions : forall (P : hrec -> bool) db k,
+  map fst (filter (fun t => P (snd t)) (with_pos k db)) =
+  filter (fun i => match nth_error db (i - k) with Some r => P r | None => false end)
          (seq k (length db)).
 Proof.
-  induction db as [|r db IH]; intros prev k; [reflexivity|].
-  cbn [with_older filter length seq trec told fst snd]. rewrite Nat.sub_diag.
-  cbn [nth_error older_from].
-  assert (filter (fun i => match nth_error (r :: db) (i - k) with
-                           | Some r0 => P r0 (older_from prev (r :: db) (i - k)) | None => false end)
+  induction db as [|r db IH]; intros k; [reflexivity|].
+  cbn [with_pos filter length seq fst snd]. rewrite Nat.sub_diag. cbn [nth_error].
+  assert (filter (fun i => match nth_error (r :: db) (i - k) with Some r0 => P r0 | None => false end)
                  (seq (S k) (length db)) =
-          filter (fun i => match nth_error db (i - S k) with
-                           | Some r0 => P r0 (older_from (Some r) db (i - S k)) | None => false end)
+          filter (fun i => match nth_error db (i - S k) with Some r0 => P r0 | None => false end)
                  (seq (S k) (length db))) as E.
   { apply filter_ext_in. intros i Hi. apply in_seq in Hi.
-    replace (i - k) with (S (i - S k)) by lia. cbn [nth_error older_from].
-    destruct (i - S k); reflexivity. }
-  destruct (P r prev); cbn [map tpos fst]; rewrite IH, E; reflexivity.
+    replace (i - k) with (S (i - S k)) by lia. reflexivity. }
+  destruct (P r); cbn [map fst]; rewrite IH, E; reflexivity.
 Qed.
 
-Lemma newest_first_positions : forall (P : hrec -> option hrec -> bool) db limit,
-  take_limit limit (map tpos (filter (fun t => P (trec t) (told t)) (newest_first db))) =
-  select_latest P db limit.
+Lemma newest_first_positions : forall (P : hrec -> bool) db limit,
+  take_limit limit (map fst (filter (fun t => P (snd t)) (newest_first db))) =
+  filter_latest P db limit.
 Proof.
-  intros. unfold select_latest, newest_first, positions_desc. f_equal.
+  intros. unfold filter_latest, newest_first, positions_desc. f_equal.
   rewrite !filter_rev', map_rev. f_equal.
-  rewrite with_older_positions. apply filter_ext. intros i. rewrite Nat.sub_0_r.
-  destruct i; reflexivity.
+  rewrite with_pos_positions. apply filter_ext. intros i. rewrite Nat.sub_0_r. reflexivity.
 Qed.
 
-Lemma select_latest_ext : forall (P Q : hrec -> option hrec -> bool) db limit,
-  (forall i r, nth_error db i = Some r -> P r (older_of db i) = Q r (older_of db i)) ->
-  select_latest P db limit = select_latest Q db limit.
+Lemma filter_latest_ext : forall (P Q : hrec -> bool) db limit,
+  (forall r, P r = Q r) -> filter_latest P db limit = filter_latest Q db limit.
 Proof.
-  intros P Q db limit H. unfold select_latest. f_equal. apply filter_ext. intros i.
-  destruct (nth_error db i) eqn:E; [apply H; exact E|reflexivity].
+  intros P Q db limit H. unfold filter_latest. f_equal. apply filter_ext. intros i.
+  destruct (nth_error db i); [apply H|reflexivity].
 Qed.
 
 Lemma find_latest_closed : forall c db limit q,
   db_wf c db -> validate c q = true ->
-  find_latest c db limit q = FlOk (select_latest (sel c q) db limit).
+  find_latest c db limit q = FlOk (filter_latest (sel c q) db limit).
 Proof.
-  intros. rewrite find_latest_closed_trip by assumption. f_equal. apply newest_first_positions.
+  intros. rewrite find_latest_closed_pairs by assumption. f_equal. apply newest_first_positions.
 Qed.
 
 (* ---- scalar / single-state ranges mean what they say *)
@@ -556,17 +565,17 @@ Qed.
 Lemma keep_is_time_cond : forall c q r, keep c q r = time_cond_impl c q r.
 Proof. intros. unfold keep, time_cond_impl. rewrite scalar_skip_spec. reflexivity. Qed.
 
-(* FindLatest = the records satisfying the four state conditions (against the
-   previous stored record) and the time conditions, newest first, limited;
-   an error exactly for an invalid query; never a panic *)
+(* FindLatest = the records satisfying the four state conditions and the time
+   conditions, newest first, limited; an error exactly for an invalid query;
+   never a panic *)
 Lemma find_latest_state_conditions_lemma : forall c db limit q,
   db_wf c db ->
   find_latest c db limit q =
     if negb (validate c q) then FlErr
-    else FlOk (select_latest (fun r o => state_sat c q r o && time_cond_impl c q r) db limit).
+    else FlOk (filter_latest (fun r => state_sat c q r && time_cond_impl c q r) db limit).
 Proof.
   intros c db limit q Hd. destruct (validate c q) eqn:Hv; cbn [negb].
-  - rewrite find_latest_closed by assumption. f_equal. apply select_latest_ext.
+  - rewrite find_latest_closed by assumption. f_equal. apply filter_latest_ext.
     intros. unfold sel. rewrite keep_is_time_cond. reflexivity.
   - unfold find_latest. rewrite Hv. reflexivity.
 Qed.
@@ -584,27 +593,25 @@ Proof.
   rewrite <- (firstn_skipn (Z.to_nat limit) l). apply in_or_app. left. exact H.
 Qed.
 
-(* soundness, spelled out: every returned position holds a record that
-   satisfies all four state conditions and the time conditions *)
+(* soundness, spelled out *)
 Lemma find_latest_sound_lemma : forall c db limit q idxs i,
   db_wf c db -> find_latest c db limit q = FlOk idxs -> In i idxs ->
   exists r, nth_error db i = Some r /\
     forallb (st_active c r) (q_active q) = true /\
-    forallb (rel_activated c r (older_of db i)) (q_activated q) = true /\
+    forallb (st_activated c r) (q_activated q) = true /\
     forallb (st_inactive c r) (q_inactive q) = true /\
-    forallb (rel_deactivated c r (older_of db i)) (q_deactivated q) = true /\
+    forallb (st_deactivated c r) (q_deactivated q) = true /\
     time_cond_impl c q r = true.
 Proof.
   intros c db limit q idxs i Hd H Hi. rewrite find_latest_state_conditions_lemma in H by assumption.
   destruct (negb (validate c q)); [discriminate|]. inversion H; subst; clear H.
-  unfold select_latest in Hi. apply in_take_limit in Hi. apply filter_In in Hi. destruct Hi as [_ Hi].
+  unfold filter_latest in Hi. apply in_take_limit in Hi. apply filter_In in Hi. destruct Hi as [_ Hi].
   destruct (nth_error db i) as [r|]; [|discriminate]. exists r. split; [reflexivity|].
   unfold state_sat in Hi. repeat (apply andb_true_iff in Hi; destruct Hi as [Hi ?]).
   repeat split; assumption.
 Qed.
 
-(* completeness, spelled out: a record satisfying everything is returned
-   unless the limit was reached by newer records *)
+(* completeness, spelled out *)
 Lemma firstn_filter_desc_complete : forall (g : nat -> bool) n k i,
   i < n -> g i = true ->
   In i (firstn k (filter g (rev (seq 0 n)))) \/
@@ -628,16 +635,16 @@ Qed.
 Lemma find_latest_complete_lemma : forall c db limit q idxs i r,
   db_wf c db -> find_latest c db limit q = FlOk idxs ->
   nth_error db i = Some r ->
-  state_sat c q r (older_of db i) = true -> time_cond_impl c q r = true ->
+  state_sat c q r = true -> time_cond_impl c q r = true ->
   In i idxs \/
   ((0 < limit)%Z /\ Z.of_nat (length idxs) = limit /\ forall j, In j idxs -> i < j).
 Proof.
   intros c db limit q idxs i r Hd H Hn Hs Ht.
   rewrite find_latest_state_conditions_lemma in H by assumption.
   destruct (negb (validate c q)); [discriminate|]. inversion H; subst; clear H.
-  unfold select_latest, positions_desc, take_limit.
+  unfold filter_latest, positions_desc, take_limit.
   set (g := fun i0 => match nth_error db i0 with
-                      | Some r0 => state_sat c q r0 (older_of db i0) && time_cond_impl c q r0
+                      | Some r0 => state_sat c q r0 && time_cond_impl c q r0
                       | None => false end).
   assert (g i = true) as Hg by (unfold g; rewrite Hn, Hs, Ht; reflexivity).
   assert (i < length db) as Hi by (apply nth_error_Some; congruence).
@@ -671,92 +678,22 @@ Proof.
            (N.leb_spec lo v), (N.leb_spec v hi); cbn; try reflexivity; lia.
 Qed.
 
-Lemma sel_is_rec_sat_rel : forall c q r o,
+Lemma sel_is_rec_sat : forall c q r,
   validate c q = true -> mtime_wf q = true -> length (t_mstates (q_start q)) <= 1 ->
-  sel c q r o = rec_sat_rel c q r o.
+  sel c q r = rec_sat c q r.
 Proof.
-  intros c q r o Hv Hw Hl. unfold sel, keep, rec_sat_rel.
+  intros c q r Hv Hw Hl. unfold sel, keep, rec_sat.
   rewrite mtime_skip_spec, scalar_skip_spec by assumption. apply andb_assoc.
 Qed.
 
 Lemma find_latest_full_spec_lemma : forall c db limit q,
   db_wf c db -> validate c q = true -> mtime_wf q = true ->
   length (t_mstates (q_start q)) <= 1 ->
-  find_latest c db limit q = FlOk (find_latest_spec_rel c db limit q).
+  find_latest c db limit q = FlOk (find_latest_spec c db limit q).
 Proof.
   intros c db limit q Hd Hv Hw Hl. rewrite find_latest_closed by assumption.
-  unfold find_latest_spec_rel. f_equal. apply select_latest_ext. intros.
-  apply sel_is_rec_sat_rel; assumption.
-Qed.
-
-(* ---- ... which is the field comments' reading where the store is "linked" *)
-
-Lemma forallb_ext_in : forall {A} (f g : A -> bool) l,
-  (forall x, In x l -> f x = g x) -> forallb f l = forallb g l.
-Proof.
-  induction l as [|a l IH]; intros H; [reflexivity|]. cbn [forallb].
-  rewrite (H a) by (left; reflexivity). rewrite IH; [reflexivity|].
-  intros x Hx. apply H. right. exact Hx.
-Qed.
-
-Lemma linked_activated : forall c o r s,
-  linked_act c o r s = true -> rel_activated c r o s = st_activated c r s.
-Proof.
-  intros c o r s H. unfold linked_act, prev_active, rel_activated, st_activated in *.
-  destruct o as [x|]; [destruct (N.odd (tracked_tick c x s))|];
-    destruct (N.odd (tracked_tick c r s)), (N.odd (tracked_delta c r s));
-    cbn in *; try reflexivity; discriminate.
-Qed.
-
-Lemma linked_deactivated : forall c o r s,
-  linked_deact c o r s = true -> rel_deactivated c r o s = st_deactivated c r s.
-Proof.
-  intros c o r s H. unfold linked_deact, prev_active, rel_deactivated, st_deactivated in *.
-  destruct o as [x|]; [destruct (N.odd (tracked_tick c x s))|];
-    destruct (N.odd (tracked_tick c r s)), (N.odd (tracked_delta c r s));
-    cbn in *; try reflexivity; discriminate.
-Qed.
-
-Lemma linked_state_sat : forall c q o r,
-  linked_for c q o r = true -> state_sat c q r o = state_sat_doc c q r.
-Proof.
-  intros c q o r H. unfold linked_for in H.
-  apply andb_true_iff in H. destruct H as [Ha Hd]. rewrite forallb_forall in Ha, Hd.
-  unfold state_sat, state_sat_doc.
-  rewrite (forallb_ext_in (rel_activated c r o) (st_activated c r))
-    by (intros; apply linked_activated; apply Ha; assumption).
-  rewrite (forallb_ext_in (rel_deactivated c r o) (st_deactivated c r))
-    by (intros; apply linked_deactivated; apply Hd; assumption).
-  reflexivity.
-Qed.
-
-Lemma find_latest_doc_partial_lemma : forall c db limit q,
-  db_wf c db -> validate c q = true -> mtime_wf q = true ->
-  length (t_mstates (q_start q)) <= 1 ->
-  (forall i r, nth_error db i = Some r -> linked_for c q (older_of db i) r = true) ->
-  find_latest c db limit q = FlOk (find_latest_spec c db limit q).
-Proof.
-  intros c db limit q Hd Hv Hw Hl Hk. rewrite find_latest_full_spec_lemma by assumption.
-  unfold find_latest_spec_rel, find_latest_spec. f_equal. apply select_latest_ext.
-  intros i r Hn. unfold rec_sat_rel, rec_sat. rewrite (linked_state_sat c q _ r (Hk i r Hn)).
-  reflexivity.
-Qed.
-
-Lemma states_free_linked : forall c q o r, states_free q = true -> linked_for c q o r = true.
-Proof.
-  intros c q o r Hf. unfold states_free in Hf.
-  repeat (apply andb_true_iff in Hf; destruct Hf as [Hf ?]).
-  unfold linked_for. destruct (q_activated q); [|discriminate].
-  destruct (q_deactivated q); [|discriminate]. reflexivity.
-Qed.
-
-Lemma find_latest_time_spec_lemma : forall c db limit q,
-  db_wf c db -> validate c q = true -> states_free q = true -> mtime_wf q = true ->
-  length (t_mstates (q_start q)) <= 1 ->
-  find_latest c db limit q = FlOk (find_latest_spec c db limit q).
-Proof.
-  intros c db limit q Hd Hv Hf Hw Hl. apply find_latest_doc_partial_lemma; try assumption.
-  intros. apply states_free_linked. exact Hf.
+  unfold find_latest_spec. f_equal. apply filter_latest_ext. intros.
+  apply sel_is_rec_sat; assumption.
 Qed.
 
 (* ---- newest first, limited *)
@@ -791,9 +728,9 @@ Lemma newest_first_lemma : forall c db limit q idxs,
 Proof.
   intros c db limit q idxs Hd H. rewrite find_latest_state_conditions_lemma in H by assumption.
   destruct (negb (validate c q)); [discriminate|].
-  inversion H as [E]. clear H. unfold select_latest, positions_desc.
+  inversion H as [E]. clear H. unfold filter_latest, positions_desc.
   set (g := fun i => match nth_error db i with
-                     | Some r => state_sat c q r (older_of db i) && time_cond_impl c q r
+                     | Some r => state_sat c q r && time_cond_impl c q r
                      | None => false end).
   destruct (desc_filter_seq g (length db)) as [D F].
   unfold newest_first_ok, take_limit.
@@ -834,35 +771,25 @@ Definition w_query (a av i d : list nat) : query :=
   {| q_active := a; q_activated := av; q_inactive := i; q_deactivated := d;
      q_start := ctime0; q_end := ctime0 |}.
 
-(* the oldest stored record has no predecessor: Sc, never active, counts as
-   "deactivated" by the record of Add Sa *)
-Lemma find_latest_doc_refuted_lemma :
-  exists c txs q,
-    validate c q = true /\
-    find_latest c (run_log c txs) 0 q = FlOk [0] /\
-    find_latest_spec c (run_log c txs) 0 q = [].
-Proof.
-  exists (w_cfg [0; 2]), w_txs, (w_query [] [] [] [2]). vm_compute. repeat split; reflexivity.
-Qed.
-
 (* Changed allow-list [Sb]: Add Sb (recorded), Add Sa (not recorded),
-   Remove Sb (recorded): Sa counts as "activated" by the record of Remove Sb *)
+   Remove Sb (recorded), Add Sb (recorded), Remove Sa (not recorded),
+   Remove Sb (recorded) *)
 Definition w_cfg_changed : hcfg :=
   {| c_called := []; c_called_excl := false; c_changed := [1]; c_changed_excl := false;
      c_rejected := false; c_store_tx := false; c_tracked := [0; 1]; c_max := 10 |}.
 Definition w_txs_unrec : list htx :=
   [ w_tx 0 [1] [0;0;0;0]%N [0;1;0;0]%N 1;
     w_tx 0 [0] [0;1;0;0]%N [1;1;0;0]%N 0;
-    w_tx 1 [1] [1;1;0;0]%N [1;2;0;0]%N 2 ].
+    w_tx 1 [1] [1;1;0;0]%N [1;2;0;0]%N 2;
+    w_tx 0 [1] [1;2;0;0]%N [1;3;0;0]%N 3;
+    w_tx 1 [0] [1;3;0;0]%N [2;3;0;0]%N 0;
+    w_tx 1 [1] [2;3;0;0]%N [2;4;0;0]%N 4 ].
 
-Lemma find_latest_doc_refuted_unrecorded_lemma :
-  exists c txs q,
-    validate c q = true /\
-    find_latest c (run_log c txs) 0 q = FlOk [1] /\
-    find_latest_spec c (run_log c txs) 0 q = [].
-Proof.
-  exists w_cfg_changed, w_txs_unrec, (w_query [] [0] [] []). vm_compute. repeat split; reflexivity.
-Qed.
+(* Add Sd (Multi); Add Sd again (re-entered: tick 1 -> 3); Remove Sd *)
+Definition w_txs_multi : list htx :=
+  [ w_tx 0 [0] [0;0]%N [1;0]%N 1;
+    w_tx 0 [0] [1;0]%N [3;0]%N 2;
+    w_tx 1 [0] [3;0]%N [4;0]%N 3 ].
 
 Definition w_mquery : query :=
   {| q_active := []; q_activated := []; q_inactive := []; q_deactivated := [];
@@ -881,12 +808,22 @@ Proof.
   vm_compute. repeat split; reflexivity.
 Qed.
 
-(* DeactivatedBetween Sc over the first record's instant: Sc was never active *)
-Lemma between_doc_refuted_lemma :
-  exists c txs s hs he,
-    between c (run_log c txs) 2 s hs he = Some true /\
-    between_spec c (run_log c txs) 2 s hs he = false.
-Proof. exists (w_cfg [0; 2]), w_txs, 2, 1%N, 1%N. vm_compute. split; reflexivity. Qed.
+(* a store holding a record whose MTimeTrackedDiff is shorter than the tracked
+   list (no history of this backend produces one: run_log_wf) makes an
+   Activated query panic: the hypothesis of the query theorems is needed *)
+Definition w_short_rec : hrec :=
+  {| r_type := 0; r_sum := 1; r_tsum := 1; r_diff := 1; r_tdiff := 1; r_rdiff := 0; r_htime := 1;
+     r_tracked := [1]%N; r_tracked_diff := []; r_mtick := 0; r_tx := None |}.
+
+Lemma short_diff_panics_lemma :
+  exists c db q,
+    validate c q = true /\
+    Forall (fun r => length (r_tracked r) = length (c_tracked c)) db /\
+    find_latest c db 0 q = FlPanic.
+Proof.
+  exists (w_cfg [0]), [w_short_rec], (w_query [] [0] [] []).
+  split; [reflexivity|]. split; [repeat constructor|reflexivity].
+Qed.
 
 (* ================================================================ *Between *)
 
@@ -903,30 +840,16 @@ Proof.
   rewrite existsb_app, IH. cbn [existsb]. rewrite orb_false_r. apply orb_comm.
 Qed.
 
-Lemma existsb_with_older : forall (P : hrec -> option hrec -> bool) db prev k,
-  existsb (fun t => P (trec t) (told t)) (with_older prev k db) = exists_with_older P prev db.
+Lemma existsb_with_pos : forall (P : hrec -> bool) db k,
+  existsb (fun t => P (snd t)) (with_pos k db) = existsb P db.
 Proof.
   induction db as [|r db IH]; intros; [reflexivity|].
-  cbn [with_older existsb exists_with_older trec told fst snd]. rewrite IH. reflexivity.
+  cbn [with_pos existsb snd]. rewrite IH. reflexivity.
 Qed.
 
-Lemma exists_with_older_ext : forall (P Q : hrec -> option hrec -> bool) db prev,
-  (forall r o, P r o = Q r o) -> exists_with_older P prev db = exists_with_older Q prev db.
-Proof.
-  induction db as [|r db IH]; intros prev H; [reflexivity|].
-  cbn [exists_with_older]. rewrite H, (IH (Some r) H). reflexivity.
-Qed.
-
-Lemma exists_with_older_plain : forall (P : hrec -> option hrec -> bool) (Q : hrec -> bool) db prev,
-  (forall i r, nth_error db i = Some r -> P r (older_from prev db i) = Q r) ->
-  exists_with_older P prev db = existsb Q db.
-Proof.
-  induction db as [|r db IH]; intros prev H; [reflexivity|].
-  cbn [exists_with_older existsb]. pose proof (H 0 r eq_refl) as H0.
-  cbn [older_from] in H0. rewrite H0. f_equal.
-  apply IH. intros i r' Hn. pose proof (H (S i) r' Hn) as H1. cbn [older_from] in H1.
-  rewrite <- H1. destruct i; reflexivity.
-Qed.
+Lemma existsb_ext' : forall {A} (f g : A -> bool) l,
+  (forall x, f x = g x) -> existsb f l = existsb g l.
+Proof. induction l; intros; cbn; [reflexivity|]. rewrite H, IHl by exact H. reflexivity. Qed.
 
 Lemma kind_cases : forall kind : N, (kind < 4)%N -> (kind = 0 \/ kind = 1 \/ kind = 2 \/ kind = 3)%N.
 Proof. intros. lia. Qed.
@@ -938,103 +861,62 @@ Proof.
   destruct (kind_cases kind Hk) as [K|[K|[K|K]]]; subst kind; cbn; rewrite ?andb_true_r; reflexivity.
 Qed.
 
-Lemma between_sel : forall c kind s hs he r o,
+Lemma between_sel : forall c kind s hs he r,
   (kind < 4)%N ->
-  sel c (between_query kind s hs he) r o =
-  between_cond c kind s r o && in_range hs he (r_htime r).
+  sel c (between_query kind s hs he) r =
+  between_cond c kind s r && in_range hs he (r_htime r).
 Proof.
-  intros c kind s hs he r o Hk. unfold sel, keep, state_sat, mtime_skip, scalar_skip, between_query.
+  intros c kind s hs he r Hk. unfold sel, keep, state_sat, mtime_skip, scalar_skip, between_query.
   destruct (kind_cases kind Hk) as [K|[K|[K|K]]]; subst kind; cbn;
     rewrite ?orb_false_r, ?andb_true_r, range_skip_spec, negb_involutive; reflexivity.
 Qed.
 
-(* the helpers answer "is there a stored record within [hs,he] on which the
-   state condition holds" - never a panic *)
+(* the helpers answer "the state is tracked and some stored record within
+   [hs,he] satisfies the state condition" - never a panic *)
 Lemma between_exact_lemma : forall c db kind s hs he,
   db_wf c db -> (kind < 4)%N ->
-  between c db kind s hs he = Some (between_spec_rel c db kind s hs he).
+  between c db kind s hs he = Some (between_spec c db kind s hs he).
 Proof.
-  intros c db kind s hs he Hd Hk. unfold between, between_spec_rel.
+  intros c db kind s hs he Hd Hk. unfold between, between_spec.
   pose proof (between_validate c kind s hs he Hk) as Hv.
   destruct (is_tracked c s) eqn:Et; cbn [andb].
   2:{ unfold find_latest. rewrite Hv. reflexivity. }
-  rewrite find_latest_closed_trip by assumption.
+  rewrite find_latest_closed_pairs by assumption.
   set (q := between_query kind s hs he).
-  set (X := map tpos (filter (fun t => sel c q (trec t) (told t)) (newest_first db))).
-  assert (is_nil X = negb (exists_with_older
-            (fun r o => between_cond c kind s r o && in_range hs he (r_htime r)) None db)) as Hx.
+  set (X := map fst (filter (fun t => sel c q (snd t)) (newest_first db))).
+  assert (is_nil X = negb (existsb
+            (fun r => between_cond c kind s r && in_range hs he (r_htime r)) db)) as Hx.
   { unfold X. rewrite is_nil_map_filter. unfold newest_first.
-    rewrite existsb_rev', (existsb_with_older (sel c q)). f_equal.
-    apply exists_with_older_ext. intros. apply between_sel. exact Hk. }
+    rewrite existsb_rev', (existsb_with_pos (sel c q)). f_equal.
+    apply existsb_ext'. intros. apply between_sel. exact Hk. }
   unfold take_limit. cbn. destruct X as [|x X']; cbn in *.
-  - f_equal. destruct (exists_with_older _ None db); [discriminate|reflexivity].
-  - f_equal. destruct (exists_with_older _ None db); [reflexivity|discriminate].
+  - f_equal. destruct (existsb _ db); [discriminate|reflexivity].
+  - f_equal. destruct (existsb _ db); [reflexivity|discriminate].
 Qed.
 
 Lemma activated_between_lemma : forall c db s hs he,
   db_wf c db ->
   between c db 0 s hs he =
-    Some (is_tracked c s &&
-          exists_with_older (fun r older => rel_activated c r older s
-                                            && in_range hs he (r_htime r)) None db).
+    Some (is_tracked c s && existsb (fun r => st_activated c r s && in_range hs he (r_htime r)) db).
 Proof. intros. apply (between_exact_lemma c db 0%N); [assumption|reflexivity]. Qed.
-
-Lemma deactivated_between_lemma : forall c db s hs he,
-  db_wf c db ->
-  between c db 2 s hs he =
-    Some (is_tracked c s &&
-          exists_with_older (fun r older => rel_deactivated c r older s
-                                            && in_range hs he (r_htime r)) None db).
-Proof. intros. apply (between_exact_lemma c db 2%N); [assumption|reflexivity]. Qed.
 
 Lemma active_between_lemma : forall c db s hs he,
   db_wf c db ->
   between c db 1 s hs he =
     Some (is_tracked c s && existsb (fun r => st_active c r s && in_range hs he (r_htime r)) db).
-Proof.
-  intros. rewrite (between_exact_lemma c db 1%N) by (assumption || reflexivity).
-  unfold between_spec_rel. f_equal. f_equal. apply exists_with_older_plain. reflexivity.
-Qed.
+Proof. intros. apply (between_exact_lemma c db 1%N); [assumption|reflexivity]. Qed.
+
+Lemma deactivated_between_lemma : forall c db s hs he,
+  db_wf c db ->
+  between c db 2 s hs he =
+    Some (is_tracked c s && existsb (fun r => st_deactivated c r s && in_range hs he (r_htime r)) db).
+Proof. intros. apply (between_exact_lemma c db 2%N); [assumption|reflexivity]. Qed.
 
 Lemma inactive_between_lemma : forall c db s hs he,
   db_wf c db ->
   between c db 3 s hs he =
     Some (is_tracked c s && existsb (fun r => st_inactive c r s && in_range hs he (r_htime r)) db).
-Proof.
-  intros. rewrite (between_exact_lemma c db 3%N) by (assumption || reflexivity).
-  unfold between_spec_rel. f_equal. f_equal. apply exists_with_older_plain. reflexivity.
-Qed.
-
-Lemma between_rec_sat : forall c kind s hs he r,
-  (kind < 4)%N ->
-  rec_sat c (between_query kind s hs he) r =
-  match kind with
-  | 0%N => st_activated c r s | 1%N => st_active c r s
-  | 2%N => st_deactivated c r s | _ => st_inactive c r s
-  end && in_range hs he (r_htime r).
-Proof.
-  intros c kind s hs he r Hk. unfold rec_sat, state_sat_doc, mtime_sat, scalar_sat, between_query.
-  destruct (kind_cases kind Hk) as [K|[K|[K|K]]]; subst kind; cbn; rewrite ?andb_true_r; reflexivity.
-Qed.
-
-(* ... which is the field comments' reading for Active/Inactive always, and
-   for Activated/Deactivated where the store is linked for the state *)
-Lemma between_doc_partial_lemma : forall c db kind s hs he,
-  db_wf c db -> (kind < 4)%N ->
-  (kind = 1%N \/ kind = 3%N \/
-   forall i r, nth_error db i = Some r ->
-     (if (kind =? 0)%N then linked_act else linked_deact) c (older_of db i) r s = true) ->
-  between c db kind s hs he = Some (between_spec c db kind s hs he).
-Proof.
-  intros c db kind s hs he Hd Hk Hl. rewrite between_exact_lemma by assumption.
-  unfold between_spec_rel, between_spec. f_equal. f_equal.
-  apply exists_with_older_plain. intros i r Hn. rewrite between_rec_sat by exact Hk.
-  f_equal. replace (older_from None db i) with (older_of db i) by (destruct i; reflexivity).
-  destruct Hl as [K|[K|Hl]]; try (subst kind; reflexivity).
-  destruct (kind_cases kind Hk) as [K|[K|[K|K]]]; subst kind; cbn [between_cond]; try reflexivity.
-  - apply linked_activated. apply (Hl i r Hn).
-  - apply linked_deactivated. apply (Hl i r Hn).
-Qed.
+Proof. intros. apply (between_exact_lemma c db 3%N); [assumption|reflexivity]. Qed.
 
 (* ================================================================ Export / Import *)
 
@@ -1204,7 +1086,7 @@ Proof.
   destruct (Z.leb_spec (w_max w) 0); lia.
 Qed.
 
-(* ================================================================ full histories *)
+(* ================================================================ the record's own transition *)
 
 Lemma w64_even : w64 = (2 * 9223372036854775808)%N.
 Proof. reflexivity. Qed.
@@ -1274,80 +1156,42 @@ Proof.
   rewrite !Hf. reflexivity.
 Qed.
 
-Lemma recs_nth : forall c txs prev i r,
-  nth_error (recs c prev txs) i = Some r ->
-  exists p tx, nth_error txs i = Some tx /\ r = mk_record c p tx.
+(* what the four state conditions say about the record of a transition, in
+   terms of that transition alone (whatever else is or is not stored) *)
+Lemma conditions_on_transition : forall c p tx s,
+  is_tracked c s = true ->
+  let b := N.odd (tick (x_before tx) s) in
+  let a := N.odd (tick (x_after tx) s) in
+  let r := mk_record c p tx in
+  st_active c r s = a /\ st_inactive c r s = negb a /\
+  st_activated c r s = negb b && a /\
+  st_deactivated c r s = b && negb a.
 Proof.
-  induction txs as [|a txs IH]; intros prev i r H; [destruct i; discriminate|].
-  destruct i; cbn [recs nth_error] in *.
-  - inversion H. exists prev, a. split; reflexivity.
-  - apply (IH _ _ _ H).
+  intros c p tx s Hs b a r. destruct (mk_record_tick c p tx s Hs) as [Ht Hd].
+  unfold st_active, st_inactive, st_activated, st_deactivated, r. rewrite Ht, Hd, odd_sub64.
+  fold a b. destruct a, b; repeat split; reflexivity.
 Qed.
 
-Lemma chained_nth0 : forall txs cur tx,
-  chained cur txs -> nth_error txs 0 = Some tx -> x_before tx = cur.
+Lemma conditions_on_transition_lemma : forall c txs r,
+  1 <= c_max c -> In r (run_log c txs) ->
+  exists tx, In tx txs /\ matches_spec c tx = true /\
+    forall s, is_tracked c s = true ->
+      let b := N.odd (tick (x_before tx) s) in
+      let a := N.odd (tick (x_after tx) s) in
+      st_active c r s = a /\ st_inactive c r s = negb a /\
+      st_activated c r s = negb b && a /\
+      st_deactivated c r s = b && negb a /\
+      (* a Multi state re-entered in the transition: tick + 2, active before
+         and after - neither activated nor deactivated *)
+      (tick (x_after tx) s = tick (x_before tx) s + 2 ->
+       st_activated c r s = false /\ st_deactivated c r s = false)%N.
 Proof.
-  intros [|a txs] cur tx Hc Hn; [discriminate|]. inversion Hn; subst. apply Hc.
-Qed.
-
-Lemma chained_nthS : forall txs cur j tx,
-  chained cur txs -> nth_error txs (S j) = Some tx ->
-  exists t, nth_error txs j = Some t /\ x_before tx = x_after t.
-Proof.
-  induction txs as [|a txs IH]; intros cur j tx Hc Hn; [discriminate|].
-  destruct Hc as [_ Hc]. cbn [nth_error] in Hn. destruct j as [|j].
-  - exists a. split; [reflexivity|]. apply (chained_nth0 _ _ _ Hc Hn).
-  - destruct (IH _ _ _ Hc Hn) as (t & Ht & Hb). exists t. split; assumption.
-Qed.
-
-Lemma filter_all : forall {A} (f : A -> bool) l, (forall x, In x l -> f x = true) -> filter f l = l.
-Proof.
-  induction l as [|a l IH]; intros H; [reflexivity|]. cbn [filter].
-  rewrite (H a) by (left; reflexivity). f_equal. apply IH. intros. apply H. right. assumption.
-Qed.
-
-Lemma full_history_linked : forall c txs init s i r,
-  chained init txs ->
-  N.odd (tick init s) = false -> is_tracked c s = true ->
-  nth_error (recs c None txs) i = Some r ->
-  linked_act c (older_of (recs c None txs) i) r s = true.
-Proof.
-  intros c txs init s i r Hc Hi Hs Hn.
-  destruct (recs_nth _ _ _ _ _ Hn) as (p & tx & Htx & ->).
-  destruct (mk_record_tick c p tx s Hs) as [Ht Hd].
-  unfold linked_act, prev_active. rewrite Ht, Hd, odd_sub64.
-  destruct i as [|j]; cbn [older_of].
-  - rewrite (chained_nth0 _ _ _ Hc Htx), Hi. destruct (N.odd (tick (x_after tx) s)); reflexivity.
-  - destruct (chained_nthS _ _ _ _ Hc Htx) as (tx' & Htx' & Hb).
-    destruct (nth_error (recs c None txs) j) as [o|] eqn:Eo.
-    + destruct (recs_nth _ _ _ _ _ Eo) as (p' & tx2 & Htx2 & ->).
-      rewrite Htx' in Htx2. inversion Htx2; subst tx2.
-      destruct (mk_record_tick c p' tx' s Hs) as [Ht' _]. rewrite Ht', Hb.
-      destruct (N.odd (tick (x_after tx) s)), (N.odd (tick (x_after tx') s)); reflexivity.
-    + exfalso. apply nth_error_None in Eo. rewrite recs_length in Eo.
-      assert (j < length txs) by (apply nth_error_Some; congruence). lia.
-Qed.
-
-(* on the complete, unrotated history of states that start inactive, Active /
-   Activated / Inactive queries mean what the field comments say *)
-Lemma find_latest_doc_full_history_lemma : forall c txs init limit q,
-  1 <= c_max c -> length txs <= c_max c ->
-  (forall tx, In tx txs -> matches c tx = true) ->
-  chained init txs ->
-  (forall s, In s (c_tracked c) -> N.odd (tick init s) = false) ->
-  validate c q = true -> mtime_wf q = true -> length (t_mstates (q_start q)) <= 1 ->
-  q_deactivated q = [] ->
-  find_latest c (run_log c txs) limit q = FlOk (find_latest_spec c (run_log c txs) limit q).
-Proof.
-  intros c txs init limit q Hm Hlen Hall Hc Hinit Hv Hw Hl Hd.
-  assert (run_log c txs = recs c None txs) as E.
-  { rewrite run_log_is_reference by exact Hm. rewrite filter_all by exact Hall.
-    apply lastn_all. rewrite recs_length. exact Hlen. }
-  apply find_latest_doc_partial_lemma; try assumption.
-  - apply run_log_wf. exact Hm.
-  - rewrite E. intros i r Hn. unfold linked_for. rewrite Hd. cbn [forallb]. rewrite andb_true_r.
-    destruct (validate_parts _ _ Hv) as (_ & H2 & _).
-    apply forallb_forall. intros s Hs. rewrite forallb_forall in H2. specialize (H2 s Hs).
-    apply (full_history_linked c txs init); try assumption.
-    apply Hinit. apply mem_In. exact H2.
+  intros c txs r Hm Hin. rewrite run_log_is_reference in Hin by exact Hm.
+  apply In_lastn in Hin. apply recs_in in Hin. destruct Hin as (p & tx & Hi & ->).
+  apply filter_In in Hi. destruct Hi as [Hi Hma]. rewrite matches_closed_form_lemma in Hma.
+  exists tx. split; [exact Hi|]. split; [exact Hma|]. intros s Hs.
+  destruct (conditions_on_transition c p tx s Hs) as (H1 & H2 & H3 & H4). cbn zeta.
+  repeat split; try assumption.
+  - rewrite H3, H. rewrite N.odd_add. destruct (N.odd (tick (x_before tx) s)); reflexivity.
+  - rewrite H4, H. rewrite N.odd_add. destruct (N.odd (tick (x_before tx) s)); reflexivity.
 Qed.
